@@ -3,6 +3,8 @@ package c01
 import (
 	"fmt"
 	"strings"
+	"sync"
+	"sync/atomic"
 	"testing"
 
 	metav1 "k8s.io/apimachinery/pkg/apis/meta/v1"
@@ -67,6 +69,7 @@ func TestCheck(t *testing.T) {
 		r.Assume("the reference model (harness/c01/model.go) is a faithful reading of the property statement and docs/en/design.md")
 		perField(r)
 		wholeRules(r)
+		policySwapUnderLoad(r)
 		endToEnd(r)
 		r.Require(r.Counter("field_cases") > 1000 && r.Counter("rule_cases") > 1000, "too few cases evaluated")
 	})
@@ -99,12 +102,12 @@ func perField(r *vkit.R) {
 }
 
 func perFieldPass(r *vkit.R, alpha []string, maxLen int) {
-	reqVals := []string{"a", "b", "c", "", "a1", "a/s", "b/s", "b/t"}
+	reqVals := []string{"a", "b", "c", "", "a1", "a/s", "b/s", "b/t", "a/s/t", "a/"}
 	groupSets := [][]string{nil, {"a"}, {"b"}, {"c"}, {"a", "b"}, {"a", "c"}, {"c", "d"}, {"a", "b", "c"}, {""}, {"a1"}}
 	type resReq struct{ res, sub string }
 	resReqs := []resReq{{"a", ""}, {"b", ""}, {"c", ""}, {"a", "s"}, {"b", "s"}, {"b", "t"}, {"a1", ""}, {"", ""}, {"*", "s"}}
 	saSets := [][]proxyv1alpha1.ServiceAccountRef{nil, {{Namespace: "n", Name: "x"}}, {{Namespace: "", Name: "x"}}, {{Namespace: "n", Name: "x"}, {Namespace: "m", Name: "y"}}}
-	userVals := []string{"a", "b", "c", "", "a1", "system:serviceaccount:n:x", "system:serviceaccount:m:y", "system:serviceaccount::x"}
+	userVals := []string{"a", "b", "c", "", "a1", "a/x", "a/", "ab/c/d", "system:serviceaccount:n:x", "system:serviceaccount:m:y", "system:serviceaccount::x"}
 
 	n := 0
 	enumLists(alpha, maxLen, func(l []string) {
@@ -200,7 +203,8 @@ var (
 	resources = []string{"pods", "deployments", "nodes", "jobs", "events"}
 	subs      = []string{"", "", "", "status", "log", "scale"}
 	names     = []string{"", "n1", "n2", "nginx"}
-	users     = []string{"admin", "admin1", "bob", "alice", "system:serviceaccount:kube-system:sa1", "system:serviceaccount:default:sa2", "system:kube-scheduler"}
+	users     = []string{"admin", "admin1", "bob", "alice", "system:serviceaccount:kube-system:sa1", "system:serviceaccount:default:sa2", "system:kube-scheduler",
+		"arn:aws:iam::1:role/admin", "oidc:https://issuer.example/alice", "admin/ops", "bob/"}
 	ugroups   = []string{"system:authenticated", "system:masters", "dev", "ops", "system:serviceaccounts"}
 	paths     = []string{"/healthz", "/healthz/etcd", "/version", "/metrics", "/apis", "/", "/readyz/x/y"}
 )
@@ -495,4 +499,101 @@ func wholeRules(r *vkit.R) {
 			}
 		}
 	})
+}
+
+// policySwapUnderLoad: goroutines match requests through ClusterInfo.MatchAttributes exactly as the dispatcher does while
+// the cluster's policy list is swapped back and forth between two generated lists A and B a fixed number of times.
+// Every policy carries a name that identifies its list and index ("A3", "B0"), so the policy a request was handled under is
+// observable. Oracle ("the decision depends only on the request attributes and the cluster's current policy list"): the
+// result must be the first match of list A or the first match of list B (both computed by the reference model) — a result
+// that mixes the two lists (index found in one list, policy taken from the other) is neither.
+func policySwapUnderLoad(r *vkit.R) {
+	scen := r.N(8, 80)
+	swaps := r.N(4000, 20000)
+	r.Parallel(scen, 8, func(i int, g *vkit.Rand) {
+		mk := func(tag string) []proxyv1alpha1.DispatchPolicy {
+			np := g.Range(2, 5)
+			var ps []proxyv1alpha1.DispatchPolicy
+			for p := 0; p < np; p++ {
+				pol := proxyv1alpha1.DispatchPolicy{FlowControlSchemaName: fmt.Sprintf("%s%d", tag, p)}
+				nr := g.Range(1, 2)
+				for k := 0; k < nr; k++ {
+					pol.Rules = append(pol.Rules, genRule(g))
+				}
+				ps = append(ps, pol)
+			}
+			return ps
+		}
+		A, B := mk("A"), mk("B")
+		// requests on which the two lists disagree about the index are the informative ones
+		var reqs []*Req
+		for len(reqs) < 12 {
+			q := genReq(g)
+			a, b := refPolicies(A, q), refPolicies(B, q)
+			if a != b || len(reqs) >= 8 || g.Chance(0.02) {
+				reqs = append(reqs, q)
+			}
+		}
+		type want struct{ a, b string }
+		wants := make([]want, len(reqs))
+		name := func(tag string, idx int) string {
+			if idx < 0 {
+				return "none"
+			}
+			return fmt.Sprintf("%s%d", tag, idx)
+		}
+		for k, q := range reqs {
+			wants[k] = want{name("A", refPolicies(A, q)), name("B", refPolicies(B, q))}
+		}
+		ci := clusters.NewEmptyClusterInfo("c01swap", nil, nil, "", nil)
+		defer ci.Stop()
+		ucA := &proxyv1alpha1.UpstreamCluster{ObjectMeta: metav1.ObjectMeta{Name: "c01swap"}}
+		ucA.Spec.DispatchPolicies = A
+		ucB := ucA.DeepCopy()
+		ucB.Spec.DispatchPolicies = B
+		if err := ci.Sync(ucA); err != nil {
+			r.Inconclusive("policy-only Sync failed: " + err.Error())
+			return
+		}
+		var stop int32
+		var wg sync.WaitGroup
+		var decisions int64
+		for w := 0; w < 6; w++ {
+			wg.Add(1)
+			go func(w int) {
+				defer wg.Done()
+				k := w
+				for atomic.LoadInt32(&stop) == 0 {
+					k = (k + 1) % len(reqs)
+					got := "none"
+					picker, err := ci.MatchAttributes(attrs(reqs[k]))
+					if err == nil {
+						got = picker.FlowControlName()
+					} else if err != clusters.ErrNoRouterRuleMatches {
+						got = "error:" + err.Error()
+					}
+					atomic.AddInt64(&decisions, 1)
+					if got != wants[k].a && got != wants[k].b {
+						r.Violation("C01/policy-swap-under-load/decision-of-neither-list",
+							fmt.Sprintf("while the policy list was swapped between lists A and B, request %+v was handled under %q; first match in A is %q, in B %q", *reqs[k], got, wants[k].a, wants[k].b),
+							map[string]interface{}{"A": A, "B": B, "request": reqs[k], "got": got, "firstMatchA": wants[k].a, "firstMatchB": wants[k].b})
+					}
+				}
+			}(w)
+		}
+		for n := 0; n < swaps; n++ {
+			if n%2 == 0 {
+				_ = ci.Sync(ucB)
+			} else {
+				_ = ci.Sync(ucA)
+			}
+		}
+		atomic.StoreInt32(&stop, 1)
+		wg.Wait()
+		r.Eval(1)
+		r.Count("swap_scenarios", 1)
+		r.Count("swap_policy_list_swaps", swaps)
+		r.Count("swap_decisions_concurrent_with_swaps", int(decisions))
+	})
+	r.Require(r.Counter("swap_decisions_concurrent_with_swaps") > 10000, "too few routing decisions concurrent with policy-list swaps")
 }
